@@ -4,7 +4,7 @@ import json, sys
 pid = sys.argv[1]
 d = sys.argv[2] if len(sys.argv) > 2 else f"/tmp/mut/{pid}"
 p = [json.loads(l) for l in open('/verif/properties.jsonl') if json.loads(l)['id'] == pid][0]
-print(f"""You are working in a scratch git worktree of the `inputlayer` repository (a Rust Datalog-style incremental rules engine) at {d}/wt . The machine is offline: prefix cargo commands with `CARGO_NET_OFFLINE=true CARGO_TARGET_DIR={d}/target` (always use exactly that target dir, never the default one). Work ONLY inside {d}; do not read or modify /repo or /verif.
+print(f"""You are working in a scratch git worktree of the `inputlayer` repository (a Rust Datalog-style incremental rules engine) at {d}/wt . The machine is offline: prefix cargo commands with `CARGO_NET_OFFLINE=true CARGO_PROFILE_DEV_DEBUG=0 CARGO_PROFILE_TEST_DEBUG=0 CARGO_TARGET_DIR={d}/target` (always use exactly that target dir, never the default one). Work ONLY inside {d}; do not read or modify /repo or /verif.
 
 Goal: introduce a realistic regression (the kind of change a developer could plausibly make: a refactoring slip, a misplaced statement, a wrong cursor/offset, a dropped call, a reordered pair of steps, a cache/shortcut that is almost right) into the source under {d}/wt/src that BREAKS the semantic property below while the crate still compiles and the repository's existing tests still pass.
 
